@@ -142,7 +142,7 @@ func cmdFunc(args []string) {
 			fmt.Println("UNDECIDED: no such function", k)
 			continue
 		}
-		vc := ctx.genFunc(fn, ss.Contracts[k], nil)
+		vc := ctx.genFunc(fn, ss.Contracts[k], ctx.houdini(fn, ss.Contracts[k], work))
 		vcs = append(vcs, vc)
 		if *dump != "" {
 			os.WriteFile(*dump, []byte(strings.Join(vc.Lines, "\n")), 0o644)
